@@ -85,7 +85,8 @@ func runEnv(c EnvCase, dir string) error {
 		task = task.Set("env", gen.Map{{K: "FOO", V: val(3)}})
 	}
 	if has(5) {
-		task = task.Set("variations", gen.List{gen.Map{{K: "FOO", V: val(5)}}})
+		// a second variation that does not mention the name: its commands see what the levels below give
+		task = task.Set("variations", gen.List{gen.Map{{K: "FOO", V: val(5)}}, gen.Map{{K: "VONLY", V: "1"}}})
 	}
 	cfg = cfg.Set("tasks", gen.Map{{K: "tk", V: task}})
 	stage := gen.Map{{K: "task", V: "tk"}}
@@ -112,13 +113,10 @@ func runEnv(c EnvCase, dir string) error {
 		argv = []string{"-c", "t.yaml", "--raw", "pp", "tk"}
 	}
 	r := env.Run(argv...)
-	top, topHook := -1, -1
-	for i := 0; i < 6; i++ {
+	topHook := -1
+	for i := 0; i < 5; i++ { // hooks run outside the variations
 		if has(i) {
-			top = i
-			if i < 5 { // hooks run outside the variations
-				topHook = i
-			}
+			topHook = i
 		}
 	}
 	want := func(tag string, lvl int) string {
@@ -131,9 +129,41 @@ func runEnv(c EnvCase, dir string) error {
 	if r.Exit != 0 || r.Crashed() {
 		return fmt.Errorf("taskctl %s: exit %d timedOut=%v stderr %q", target, r.Exit, r.TimedOut, r.Stderr)
 	}
-	if !strings.Contains(r.Stdout, want("CMD", top)) {
-		return fmt.Errorf("levels %v defined: the command must see the value of %q (highest level present), untouched OTHER and TASK_NAME=tk: want line %q, stdout %q",
-			present(c.Mask), levels[top], want("CMD", top), r.Stdout)
+	// the CMD lines in order: per execution one line per variation (the second variation does not set the name)
+	topOf := func(levels ...int) int {
+		t := -1
+		for _, i := range levels {
+			if has(i) {
+				t = i
+			}
+		}
+		return t
+	}
+	var wantSeq []string
+	if c.AsStage {
+		wantSeq = append(wantSeq, want("CMD", topOf(0, 1, 2, 3, 4, 5)))
+		if has(5) {
+			wantSeq = append(wantSeq, want("CMD", topOf(0, 1, 2, 3, 4)))
+		}
+		wantSeq = append(wantSeq, want("CMD", topOf(0, 1, 2, 3, 5)))
+		if has(5) {
+			wantSeq = append(wantSeq, want("CMD", topOf(0, 1, 2, 3)))
+		}
+	} else {
+		wantSeq = append(wantSeq, want("CMD", topOf(0, 1, 2, 3, 5)))
+		if has(5) {
+			wantSeq = append(wantSeq, want("CMD", topOf(0, 1, 2, 3)))
+		}
+	}
+	var gotSeq []string
+	for _, l := range strings.Split(r.Stdout, "\n") {
+		if strings.HasPrefix(l, "CMD FOO=") {
+			gotSeq = append(gotSeq, l+"\n")
+		}
+	}
+	if strings.Join(gotSeq, "") != strings.Join(wantSeq, "") {
+		return fmt.Errorf("levels %v defined (as stage then direct: %v): the commands must see, in order, %q (the highest level present for each execution and variation; the second variation does not set the name), got %q; stdout %q",
+			present(c.Mask), c.AsStage, wantSeq, gotSeq, r.Stdout)
 	}
 	for _, tag := range []string{"CMD", "BEFORE", "AFTER"} {
 		if n := strings.Count(r.Stdout, tag+" NEAR="); n != strings.Count(r.Stdout, tag+" "+nearWant) {
@@ -147,29 +177,6 @@ func runEnv(c EnvCase, dir string) error {
 	}
 	if !strings.Contains(r.Stdout, "CMD "+nearWant) {
 		return fmt.Errorf("levels %v defined: the command printed no NEAR line: stdout %q", present(c.Mask), r.Stdout)
-	}
-	if c.AsStage {
-		topDirect := -1
-		for i := 0; i < 6; i++ {
-			if has(i) && i != 4 {
-				topDirect = i
-			}
-		}
-		// the last CMD line belongs to the direct run
-		lines := strings.Split(strings.TrimSpace(r.Stdout), "\n")
-		last := ""
-		for _, l := range lines {
-			if strings.HasPrefix(l, "CMD FOO=") {
-				last = l + "\n"
-			}
-		}
-		if strings.Count(r.Stdout, "CMD FOO=") < 2 || last != want("CMD", topDirect) {
-			lvl := "(nothing: FOO unset)"
-			if topDirect >= 0 {
-				lvl = levels[topDirect]
-			}
-			return fmt.Errorf("levels %v defined: the direct run after the pipeline must see the value of %s, not the stage's: want last line %q, stdout %q", present(c.Mask), lvl, want("CMD", topDirect), r.Stdout)
-		}
 	}
 	if c.Hooks {
 		for _, tag := range []string{"BEFORE", "AFTER"} {
